@@ -159,6 +159,7 @@ theorem solve_spec {n nx : Nat} (A : Mat ℝ n n) (s : State ℝ n n) (hc : cons
   rw [← hc] at hs
   exact (solve_ok A B d X hs).1
 
+
 /-- the returned indicator is the smallest pivot magnitude `min_i |U(i,i)|` -/
 theorem indicator_spec {n nx : Nat} (A : Mat ℝ n n) (s : State ℝ n n) (hc : construct A = .ok s)
     (B : Mat ℝ n nx) (d : ℝ) (X : Mat ℝ n nx) (hs : solve s B = .ok (d, X)) :
@@ -166,10 +167,45 @@ theorem indicator_spec {n nx : Nat} (A : Mat ℝ n n) (s : State ℝ n n) (hc : 
   rw [construct_square] at hc
   injection hc with hc
   rw [← hc] at hs
-  obtain ⟨hn, hd⟩ := (solve_ok A B d X hs).2
+  obtain ⟨hn, hd⟩ := (solve_ok A B d X hs).2.1
   have := minDiag_spec (factor (Nat.le_refl n) A) rfl hn
   rw [← hd, hc] at this
   simpa [getU] using this
+
+/-- when `solve` returns, the matrix is invertible (its determinant is the non-zero product of the
+pivots up to sign) and the returned `X` is *the* solution: any `Y` with `A·Y = B` equals `X` -/
+theorem solve_unique {n nx : Nat} (A : Mat ℝ n n) (s : State ℝ n n) (hc : construct A = .ok s)
+    (B : Mat ℝ n nx) (d : ℝ) (X : Mat ℝ n nx) (hs : solve s B = .ok (d, X)) :
+    (toMatrix A).det ≠ 0 ∧ ∀ Y : Mat ℝ n nx, matMul A Y = B → Y = X := by
+  have hAX := solve_spec A s hc B d X hs
+  have hind := (indicator_spec A s hc B d X hs).1
+  rw [construct_square] at hc
+  injection hc with hc
+  have hs' := hs
+  rw [← hc] at hs'
+  have hpos := (solve_ok A B d X hs').2.2
+  have hdet : (toMatrix A).det ≠ 0 := by
+    rw [← det_factor A, hc, det_eq_prod]
+    obtain ⟨σ, _, h2, _⟩ := factor_matrix (Nat.le_refl n) A
+    rw [hc] at h2
+    apply mul_ne_zero
+    · rw [h2]
+      rcases Int.units_eq_one_or (Equiv.Perm.sign σ) with e | e <;> simp [e]
+    · apply Finset.prod_ne_zero_iff.mpr
+      intro k _ hk
+      have := hind k
+      simp only [getU, Mat.get_ofFn, le_refl, if_true, Fin.castLE_refl] at this
+      rw [hk, abs_zero] at this
+      linarith
+  refine ⟨hdet, ?_⟩
+  intro Y hY
+  apply toMatrix_inj
+  have h1 := congrArg toMatrix hY
+  have h2 := congrArg toMatrix hAX
+  rw [toMatrix_matMul] at h1 h2
+  have hu : IsUnit (toMatrix A).det := isUnit_iff_ne_zero.mpr hdet
+  have := congrArg (fun M => (toMatrix A)⁻¹ * M) (h1.trans h2.symm)
+  simpa [← Matrix.mul_assoc, Matrix.nonsing_inv_mul _ hu] using this
 
 /-- a pivot below the threshold makes `solve` raise `ZeroDivisionException` (never an answer),
 whatever the right-hand side of the right height -/
